@@ -825,3 +825,51 @@ impl FunctionLocation {
             rfl_in(*function, l) && loc_of(l) == fl_loc(*self) ==> r == Ok::<RefFunctionLocation<'f>, Error>(l),
 //@ end
 }
+
+impl ProgramLocation {
+//@ fn impl ProgramLocation :: fn apply
+//@ spec
+    ensures
+        /*@none*/ self.function_index is None ==> r == Err::<RefProgramLocation<'p>, Error>(Error::ProgramLocationApplication),
+        /*@nofn*/ self.function_index matches Some(k) && !program.functions@.contains_key(k) ==> r == Err::<RefProgramLocation<'p>, Error>(Error::ProgramLocationApplication),
+        /*@ok*/ self.function_index matches Some(k) && program.functions@.contains_key(k) && fl_applies(*program.functions@[k], self.function_location) ==> r is Ok,
+        /*@err*/ self.function_index matches Some(k) && program.functions@.contains_key(k) && !fl_applies(*program.functions@[k], self.function_location)
+            ==> r == Err::<RefProgramLocation<'p>, Error>(Error::FunctionLocationApplication),
+        /*@fn*/ r matches Ok(x) ==> self.function_index matches Some(k) && program.functions@.contains_key(k) && *x.function == *program.functions@[k],
+        /*@loc*/ r matches Ok(x) ==> ((*x.function).function_wf() ==> loc_of(x.function_location) == fl_loc(self.function_location) && rfl_points_in(*x.function, x.function_location)),
+        /*@valid*/ r matches Ok(x) ==> ((*x.function).function_wf() && loc_valid(*x.function, fl_loc(self.function_location)) ==> x.rpl_wf()),
+        /*@roundtrip*/ program.program_wf() ==> forall|l: RefProgramLocation| #![trigger rfl_in(*l.function, l.function_location)]
+            program.holds_function(*l.function) && rfl_in(*l.function, l.function_location)
+            && *self == (ProgramLocation { function_index: l.function.index, function_location: loc_fl(loc_of(l.function_location)) })
+            ==> r == Ok::<RefProgramLocation<'p>, Error>(l),
+//@ enter
+    reveal(Program::holds_function);
+//@ end
+}
+
+/// the borrowed entry location of `f` whose entry block is `e`
+pub open spec fn entry_rfl<'a>(f: &'a Function, e: usize) -> RefFunctionLocation<'a> {
+    let blk = &f.control_flow_graph.graph.vertices@[e];
+    if blk.instructions@.len() == 0 { RefFunctionLocation::EmptyBlock(blk) } else { RefFunctionLocation::Instruction(blk, &blk.instructions@[0]) }
+}
+
+impl<'p> RefProgramLocation<'p> {
+//@ fn impl<'p> RefProgramLocation<'p> :: fn from_function
+//@ closure 0 |entry: usize| -> (r0: Result<RefProgramLocation<'_>, Error>)
+    ensures
+        function.control_flow_graph.has_block(entry) ==> r0 == Ok::<RefProgramLocation<'_>, Error>(rpl_at(function, entry_rfl(function, entry))),
+        !function.control_flow_graph.has_block(entry) ==> r0 == Err::<RefProgramLocation<'_>, Error>(Error::GraphVertexNotFound(entry)),
+//@ closure 1 |block: &Block| -> (r1: RefProgramLocation<'_>)
+    ensures r1 == rpl_at(function, if block.instructions@.len() == 0 { RefFunctionLocation::EmptyBlock(block) } else { RefFunctionLocation::Instruction(block, &block.instructions@[0]) }),
+//@ closure 2 |instruction: &Instruction| -> (r2: RefFunctionLocation<'_>)
+    ensures r2 == RefFunctionLocation::Instruction(block, instruction),
+//@ spec
+    ensures
+        /*@none*/ function.control_flow_graph.entry is None ==> r is None,
+        /*@missing*/ function.control_flow_graph.entry matches Some(e) ==> (!function.control_flow_graph.has_block(e)
+            ==> r == Some(Err::<RefProgramLocation<'_>, Error>(Error::GraphVertexNotFound(e)))),
+        /*@entry*/ function.control_flow_graph.entry matches Some(e) ==> (function.control_flow_graph.has_block(e)
+            ==> r == Some(Ok::<RefProgramLocation<'_>, Error>(rpl_at(function, entry_rfl(function, e))))),
+        /*@wf*/ function.function_wf() ==> (r matches Some(Ok(x)) ==> x.rpl_wf() && Some(x.loc()) == entry_loc(*function)),
+//@ end
+}
